@@ -16,6 +16,21 @@ VARS = [
 ]
 
 
+# strings with braces stored in the EXISTING context: merge must leave them byte-identical
+RAW_OK = ['{s}', '{k1}', '{{esc}}', '{dct[p]}']                     # would format fine
+RAW_ERR = ['a{b}', '{missing}', 'pre {n} post', '{nope}x', '{s', 'x}']  # would (or might) raise
+RAW_BRACES = RAW_OK + RAW_ERR
+
+
+def raw_set_members(rng, n):
+    """at most ONE member that raises when formatted: a set is iterated in hash order, so which of
+    two failing members raises first (when the set itself gets referenced) is not modelled"""
+    xs = rng.sample(RAW_OK + ['p', 'q'], min(n, 3))
+    if rng.random() < 0.6:
+        xs[rng.randrange(len(xs))] = rng.choice(RAW_ERR)
+    return xs
+
+
 def kind_of(v):
     if v is None:
         return 'none'
@@ -70,6 +85,8 @@ class Env:
 
     def leaf_str(self, incoming):
         rng = self.rng
+        if not incoming and rng.random() < 0.12:
+            return rng.choice(RAW_BRACES)
         if rng.random() < (0.65 if incoming else 0.15):
             return self.fmt_string(incoming)
         return rng.choice(G.WORDS)
@@ -130,13 +147,17 @@ class Env:
                 kk = rng.choice(KINDS) if depth > 0 else rng.choice(KINDS[3:])
                 out.append([self.key_expr(k) if incoming else k, self.value(kk, depth - 1, incoming)])
             return {'d': out}
-        if kind == 'list':
-            return {'l': [self.member(depth, incoming) for _ in range(rng.randrange(0, 4))]}
-        if kind == 'tuple':
-            return {'t': [self.member(depth, incoming) for _ in range(rng.randrange(0, 4))]}
+        if kind in ('list', 'tuple'):
+            xs = [self.member(depth, incoming) for _ in range(rng.randrange(0, 4))]
+            if not incoming and rng.random() < 0.3:
+                xs.insert(rng.randrange(len(xs) + 1), rng.choice(RAW_BRACES))
+            return {'l' if kind == 'list' else 't': xs}
         if kind == 'set':
             if incoming and rng.random() < 0.3 and self.has('s'):
                 return {'s': sort_set(rng.sample(['{s}', 'p', 'q', 'x y', '{k1}'], rng.randrange(1, 4)))}
+            if not incoming and rng.random() < 0.35:
+                # EXISTING members that look like format expressions: they are data, not to be formatted
+                return {'s': sort_set(raw_set_members(rng, rng.randrange(1, 4)))}
             return G.gen_set(rng)
         if kind == 'str':
             return self.leaf_str(incoming)
@@ -241,13 +262,33 @@ def gen_case(rng, tier):
         rng.shuffle(ctx)
     meta = []
     r = rng.random()
-    if r < 0.04:
+    if r < 0.03:
         # by-reference value then a colliding key that mutates it in place
         src, extra = rng.choice([('lst', {'l': [9]}), ('dct', {'d': [['new', 1]]})])
         ref = rng.choice(['{' + src + ':ff}', {'py': ['name', src]}])
         inc = [['x', ref], ['{kx}', extra]]
         meta.append('family:by-reference+collision')
-    elif r < 0.08:
+    elif r < 0.07:
+        # an existing container whose members have braces, merged with the same kind at the same path
+        kind = rng.choice(['set', 'set', 'list', 'tuple', 'map'])
+        raw = rng.sample(RAW_BRACES, rng.randrange(1, 4))
+        if kind == 'set':
+            ev, iv = {'s': sort_set(raw_set_members(rng, len(raw)))}, {'s': sort_set(rng.sample(['p', 'q', '{s}', 'x y'], rng.randrange(1, 3)))}
+        elif kind == 'map':
+            ev = {'d': [['keep', raw[0]], ['also', {'l': list(raw)}], ['over', raw[-1]]]}
+            iv = {'d': [['over', rng.choice(['{s}', 1, 'lit'])], ['new', '{s}']]}
+        else:
+            tagk = 'l' if kind == 'list' else 't'
+            ev, iv = {tagk: list(raw)}, {tagk: [rng.choice(['{s}', 'p', 7])]}
+        key = rng.choice(['raw', 'a', 'x'])
+        ctx = [p for p in ctx if p[0] != key] + [[key, ev]]
+        if rng.random() < 0.5:
+            ctx.append(['rawtop', rng.choice(raw)])        # and one the incoming tree does not name
+        inc = [[env.key_expr(key), iv]]
+        if rng.random() < 0.4:
+            inc.append(['other', '{s}'])
+        meta.append(f'family:existing-braces-{kind}')
+    elif r < 0.10:
         # a key that reads a key merged a moment earlier
         inc = [['k1', rng.choice(['b', 'c', 'fresh'])], ['{k1}', env.value(rng.choice(KINDS), 1, True)],
                ['later', '{fresh}' if rng.random() < 0.3 else '{k1}']]
